@@ -42,6 +42,38 @@ def dim(fn, t, depth=0):
             return dim(fn, inner, depth + 1)
         if nm == "get" and "VarOrder" in t[1].key():
             return "Level"
+        if nm in ("unwrap_or", "unwrap_or_default", "unwrap_or_else") and t[2]:
+            return dim(fn, t[2][0], depth + 1)
+        if nm in ("position", "rposition") and len(t[2]) == 2:
+            # the position of the first item satisfying p, in a range 0..n: an index in whatever space p reads its item
+            clo = canon.closure_fn(mir.CURRENT, t[2][1])[0] if mir.CURRENT is not None else None
+            src = strip(t[2][0])
+            if src[0] == "mutref" and len(t) > 3 and t[3]:
+                src = strip(fn.terms.state_in.get(t[3][0], {}).get(src[1]) or fn.terms.state_out.get(t[3][0], {}).get(src[1]) or src)
+            if src[0] == "mut" and len(src) > 3:      # the receiver as the call left it: look at what it was
+                src = strip(src[3])
+            while mir.is_call(src, "into_iter") or mir.is_call(src, "iter"):
+                src = strip(src[2][0])
+            if clo is not None and src[0] == "agg" and (src[2] or "").endswith("Range") and \
+                    strip(src[4][0]) == ("const", "usize", "0"):
+                item = ("param", 2)
+                uses = set()
+                for cs in clo.terms.calls:
+                    for i_, a in enumerate(cs.args):
+                        a0 = strip(a)
+                        while a0[0] == "cast":
+                            a0 = strip(a0[2])
+                        if a0 != item and not (a0[0] in ("deref", "copy") and strip(a0[1]) == item):
+                            continue
+                        if cs.callee.name in ("new", "new_usize") and "VarLabel" in cs.callee.key():
+                            uses.add("Label")
+                        elif cs.callee.name == "var_at_level":
+                            uses.add("Level")
+                        elif cs.callee.name in ("index", "index_mut") and i_ == 1:
+                            tab = show(strip(cs.args[0]))
+                            uses.add("Label" if tab.endswith("var_to_pos") else ("Level" if tab.endswith("pos_to_var") else "?"))
+                if len(uses) == 1 and "?" not in uses:
+                    return uses.pop()
         return None
     if t[0] == "field" and t[2] == "0" and isinstance(t[1], tuple) and t[1][0] == "bin":
         return dim(fn, t[1], depth + 1)
@@ -206,6 +238,7 @@ def run(prog):
     out.append(inst("VO", "%s:fresh-is-count" % fn.npath, VIOLATION if errs else OK, fn, None,
                     "; ".join(errs) if errs else "fresh variable: label = level = number of variables so far"))
     out += label_order(prog)
+    out += level_arguments(prog)
     out += [force_permutation(prog)]
     out += order_selection(prog)
     out += table_iterations(prog)
@@ -215,6 +248,43 @@ def run(prog):
 
 
 ORD_OPS = ("lt", "le", "gt", "ge", "cmp", "partial_cmp", "max", "min", "clamp")
+
+
+def level_arguments(prog):
+    """a parameter called level/pos of a crate function is a *level* of the variable order (it ends up in var_at_level
+    or in pos_to_var): every call site hands it a level — a constant start, the callee's own level ± 1, a value read
+    from var_to_pos — never a label-space index (a position in 0..num_vars found by looking at VarLabel(v))."""
+    out, seen = [], {}
+    for fn in prog.lib_fns:
+        if "::test" in fn.npath or fn.name.startswith("test") or not any(b["term"]["k"] == "call" for b in fn.blocks):
+            continue
+        for cs in fn.terms.calls:
+            c = cs.callee
+            if not (c.local or getattr(c, "res_local", False)) or cs.exp:
+                continue
+            gs = [g for g in prog.resolve(c) if g.kind != "Closure"]
+            if not gs:
+                continue
+            g = gs[0]
+            for i, a in enumerate(cs.args):
+                nm = g.arg_name(i + 1) or ""
+                if nm not in ("level", "lvl", "cur_level", "start_level") and not (nm == "pos" and g.impl_self == VO):
+                    continue
+                if not any(h in (g.locals[i + 1]["s"] if i + 1 < len(g.locals) else "") for h in ("usize", "u64", "u32")):
+                    continue
+                d = dim(fn, a)
+                a0 = strip(a)
+                if d is None and a0[0] != "const":
+                    continue
+                key = "%s:level-arg:%s" % (fn.npath, g.name)
+                seen[key] = seen.get(key, 0) + 1
+                if seen[key] > 1:
+                    key += "#%d" % seen[key]
+                out.append(inst("VO", key, VIOLATION if d == "Label" else OK, fn, cs.line,
+                                "`%s` of %s is given %s, an index in *label* space: the callee uses it as a level of the variable "
+                                "order, and the two coincide only under the identity order" % (nm, g.name, show(a)[:60]) if d == "Label"
+                                else "`%s` of %s is given a %s" % (nm, g.name, d or "constant")))
+    return out
 
 
 def label_order(prog):
